@@ -40,7 +40,7 @@ CHECKS["C17"] = dict(
 
 CHECKS["C15"] = dict(
     category="model_checking",
-    technique="TLA+ contract (Loader) + implementation model (LoaderImpl: LRUs, active bundle, index, files) checked in TLC over a grid of capacities; trace validation of exhaustive history trees on real loader classes",
+    technique="TLA+ contract (Loader) + implementation model (LoaderImpl: LRUs, active bundle, index, files) checked in TLC over a grid of capacities; trace validation (LoaderTrace) of exhaustive history trees on real loader classes, every history closed by export / export_indexing / restore / get-all, and of the loader histories recorded from real analyses run under lowered row limits and cache capacities (content tokens = digests of rows and objects; contract-only mode), plus comparison of what the analysis saves across loader configurations",
     text="TLC proves on LoaderImpl that every get answers the latest save and that a synced restore loses nothing, for all histories "
          "at small constants over the grid item-cache x bundle-cache x MAX_ROWS (two pinned-code deviations are negative controls); "
          "exhaustive save/get/export/export_indexing/restore trees run on real ScopeHierarchyLoader, UnitGIRLoader and CFGLoader objects "
@@ -119,7 +119,7 @@ CHECKS["C01"] = dict(
 
 CHECKS["C02"] = dict(
     category="translation_validation",
-    technique="GIRMachine (TLA+ operational semantics of GIR) run by TLC on the GIR emitted by each of the seven frontends for renderings of the same core program; outputs compared with the program's reference semantics",
+    technique="GIRMachine (TLA+ operational semantics of GIR) run by TLC on the GIR emitted by each of the seven frontends for renderings of the same core program; outputs compared with the program's reference semantics; the same renderings analysed in one multi-language workspace must yield identical GIR per unit",
     text="Core-language programs (ints, locals, arithmetic, comparisons, if/else, while, counted for, break/continue, functions, calls, return, "
          "int arrays) are rendered in python, javascript, typescript, java, c, go and php; every rendering goes through the real frontend and "
          "the one common GIR semantics; its outputs must equal the reference run, and a row the common semantics cannot execute (operation or "
@@ -207,7 +207,7 @@ CHECKS["C08"] = dict(
 
 CHECKS["C09"] = dict(
     category="model_checking",
-    technique="the definition events of all behaviours of GIRMachine (TLC explores both arms of every unknown branch) are united per definition point; ValueExact.tla, checked by TLC, judges that the regular abstract values lian recorded for the point (s2space_p3, newest-copy rule) are among them and that no unknown state appears on a constant program",
+    technique="the definition events of all behaviours of GIRMachine (TLC explores both arms of every unknown branch) are united per definition point; ValueExact.tla, checked by TLC, judges that the regular abstract values lian recorded for the point (s2space_p3, newest-copy rule) are among them and that no unknown state appears on a constant program; the other half of exactness (no value of a path is missing) is GIRMachine's Covers judgement on the same behaviours",
     text="Loop-free integer value programs (the C08 family without arrays, loops, may-alias receivers): overwrites, other field / other object, aliases, "
          "parameter writes and reads, helpers called from two and three sites with different arguments directly and through a wrapper, callees with two arms and two "
          "exits, branches, constant arithmetic over branch-dependent operands. For every definition point (statement, name, and field of a defined object) the set "
